@@ -50,6 +50,15 @@ Expect(dir, layout, fault) ==
                    [] dir = "progress" -> "ok"        \* on_progress is not fired; the untouched final result completes the call
                    [] OTHER -> "encerror"]
 
+\* A keyring that changes while it is in use (same sessions, same URI; a multi-step history): ko / kr = what the originator /
+\* the responder hold for the URI's prefix at that moment ("none": no key, "k1", "k2").  What goes out is decided by the keys
+\* installed *now*, not by what was looked up earlier.
+KeyStates == {"none", "k1", "k2"}
+LiveExpect(ko, kr) == [enc |-> ko # "none", delivered |-> IF ko = "none" \/ ko = kr THEN "exact" ELSE "none"]
+\* An error is a payload of its own: an error URI that a key covers is encrypted whether or not the call it answers was.
+ErrKeyedExpect == [enc |-> TRUE, delivered |-> "exact", call |-> "apperror"]
+ASSUME \A ko \in KeyStates, kr \in KeyStates : (ko # "none" => LiveExpect(ko, kr).enc) /\ LiveExpect(ko, kr).delivered \in {"exact", "none"}
+
 VARIABLES dir, layout, fault
 vars == <<dir, layout, fault>>
 Init == dir \in Dirs /\ layout \in Layouts /\ fault \in Faults
